@@ -21,9 +21,9 @@ CLAIMED.update({
     "C01": ("DESIGN.md 6/C01", "Lean 4 theorems: the model of the n log n routine (prefix sums + merge-sort inversion counting) "
             "returns exactly the pairwise-penalty definition for every valid scheme, dataset and candidate, and refuses "
             "incomplete candidates (C01_score, C01_counts, C01_refuse, C01_holds); tied to the code by comparing refusal, "
-            "score and the per-ranking count vectors.", GEN_NOTE, TECH),
+            "score and the per-ranking count vectors, up to 100 000 elements in the thorough tier (the proven-equal model is the oracle there).", GEN_NOTE, TECH),
     "C19": ("DESIGN.md 6/C19", "Lean 4 theorems: constructor accepts exactly the documented inputs with the documented "
-            "exception (over a PyVal ADT), scaling, homogeneity of the Kemeny score, equivalence = proportionality on both "
+            "exception (over a PyVal ADT that includes bools, None, strings, NaN and inf), scaling, homogeneity of the Kemeny score, equivalence = proportionality on both "
             "vectors, nickname; tied to the code on well-formed, malformed and near-miss streams.", GEN_NOTE, TECH),
     "C20": ("DESIGN.md 6/C20", "Lean 4 theorems: every Markov move, step and walk (all draw sequences) preserves the dense "
             "bucket numbering; conversion yields non-empty disjoint buckets; complete mode delivers m complete rankings; "
@@ -58,8 +58,8 @@ CLAIMED.update({
             "Tied on arcs, robust arcs, partition, walk result.", GEN_NOTE + " igraph's SCC order is an assumption checked per sample.", TECH),
     "C08": ("DESIGN.md 6/C08", "Lean 4 theorems: delta arrays are exact score differences, a search returning nothing has "
             "inspected every target, moves renumber densely, a sweep without move certifies a local optimum, for every "
-            "departure ranking, with or without starters (C08_improveOne, C08_run). Tied on the numba kernels directly.",
-            GEN_NOTE + " Exact arithmetic; termination of the sweep loop is a hypothesis (flag).", TECH),
+            "departure ranking, with or without starters (C08_improveOne, C08_run); the sweep loop terminates (C08_terminates: every accepted move lowers an integer score bounded below) and default BioConsert returns local optima unconditionally (C08_default). Tied on the numba kernels directly.",
+            GEN_NOTE + " Exact arithmetic on the dyadic grid.", TECH),
     "C09": ("DESIGN.md 6/C09", "Lean 4 theorems: every accepted move decreases the score, the reported score is the minimum "
             "over departures and at most each departure's score, all returned rankings share it (C09_best, C09_holds); "
             "departure rows tied to the real _departure_rankings array.", GEN_NOTE, TECH),
@@ -72,8 +72,9 @@ CLAIMED.update({
             "refusal rule, independence of ranking order.", GEN_NOTE + " Mean comparison by cross-multiplication.", TECH),
     "C13": ("DESIGN.md 6/C13", "Lean 4 theorem C13_holds: victory classes, scores, totals, order.", GEN_NOTE, TECH),
     "C14": ("DESIGN.md 6/C14", "Lean 4 theorems over all nested configurations: relevant => never refused, complete never "
-            "refused, exact refusal for Borda / PickAPerm / BioCo / BioConsert from them; guards of the concrete models; tied "
-            "on random nested configurations incl. the stand-in CPLEX ones.", GEN_NOTE + PARTIAL_SOLVER, TECH),
+            "refused, exact refusal for Borda / PickAPerm / BioCo / BioConsert from them; guards of the concrete models; the selector "
+            "get_algorithm builds the class each enum member names and the members listed as compatible with any scheme are (C14b); tied "
+            "on random nested configurations incl. the stand-in CPLEX ones and through the selector.", GEN_NOTE + PARTIAL_SOLVER, TECH),
     "C15": ("DESIGN.md 6/C15", "PARTIAL by nature: in the Lean model every call is read-only by construction (C15_frame, "
             "C15_history_independent, C15_repeatable); in-place mutation / aliasing in the Python heap is OBSERVED: complete "
             "state snapshots before and after every call of random histories on shared objects, each call repeated on fresh "
@@ -84,8 +85,9 @@ CLAIMED.update({
     "C17": ("DESIGN.md 6/C17", "Lean 4 theorems: equality iff a reordering matches ranking by ranking; equivalence relation; "
             "invariance under ranking order and member order; multiplicities matter.", GEN_NOTE, TECH),
     "C18": ("DESIGN.md 6/C18", "Lean 4 model of the index-based scanner with Python's string primitives: totality (only "
-            "ValueError) for every text, round trip of rendered rankings, file round trip; tied on renderings, mutated "
-            "renderings and random strings over the format alphabet.", GEN_NOTE + " ASCII texts.", TECH),
+            "ValueError) for every text, round trip of rendered rankings, file round trip for int and for string elements (C18_file_int, "
+            "C18_file_str); tied on renderings, mutated renderings, random strings over the format alphabet and every file reader "
+            "of the API.", GEN_NOTE + " ASCII texts plus a few non-ASCII letters and non-decimal digits.", TECH),
 })
 NOT_YET = "model/theorems not built yet in this round (work in progress; see DESIGN.md section 9)"
 
